@@ -8,13 +8,20 @@
 (*   prev   current leader, epoch - 1        next  current leader, epoch + 1 *)
 (*   pep    current leader, the partition epoch (= cur until the ISR changed) *)
 (*   first  the pair the partition was created with (stale after an election) *)
+(*   own    the most recent leadership term of the REAL broker (replica L0;    *)
+(*          the other replicas are fictitious)                                *)
+(* The real broker runs its real replicators while it leads; the ISR requests *)
+(* whose pair is a term the real broker led (first, own, cur while it leads)  *)
+(* are built and sent by that term's real replicator (replicator.shrinkISR /  *)
+(* expandISR - what a health tick that is still in flight does), so that the  *)
+(* requester's side of the epoch fence is part of what is checked.            *)
 (* `last` = the step's intent and the resolved pair; nOps = step budget;  *)
 (* both outside the VIEW.                                                 *)
 EXTENDS Failover, Sequences, TLC
 
-CONSTANTS InitISRs, L0, PairSels, MaxOps, MaxPend, Faults
-VARIABLES last, nOps
-mcvars == <<vars, last, nOps>>
+CONSTANTS InitISRs, L0, PairSels, MaxOps, MaxPend, Faults, EffectiveOnly
+VARIABLES last, nOps, ownE, hist
+mcvars == <<vars, last, nOps, ownE, hist>>
 
 ReplicaOrder == <<"r1", "r2", "r3", "r4">>   \* the driver uses the same (sorted) order
 OtherThan(x) == ReplicaOrder[CHOOSE i \in 1..Len(ReplicaOrder) :
@@ -27,8 +34,14 @@ Pair(ps) == CASE ps = "cur" -> <<leader, lepoch>>
               [] ps = "next" -> <<leader, lepoch + 1>>
               [] ps = "pep" -> <<leader, pepoch>>
               [] ps = "first" -> <<L0, e0>>
+              [] ps = "own" -> <<L0, ownE>>
 
+\* EffectiveOnly (path enumeration): no steps on a removed stream, no faults on
+\* ISR requests (both are refusals that leave everything as it is)
 Step(a) == /\ nOps < MaxOps /\ nOps' = nOps + 1 /\ last' = a
+           /\ EffectiveOnly => exists
+           /\ ownE' = IF leader' = L0 /\ lepoch' # lepoch THEN lepoch' ELSE ownE
+           /\ hist' = Append(hist, a)
 
 MCInit ==
   /\ exists = TRUE /\ isr \in InitISRs /\ pisr = isr /\ leader = L0
@@ -36,7 +49,7 @@ MCInit ==
   /\ fo = NoFo /\ armed = FALSE /\ good = {}
   /\ obs = [a |-> "Open", err |-> ""]
   /\ pend = <<>> /\ taint = FALSE
-  /\ last = [a |-> "Open"] /\ nOps = 0
+  /\ last = [a |-> "Open"] /\ nOps = 0 /\ ownE = 1 /\ hist = <<>>
 
 \* pref = the in-sync follower the election picks (the least loaded broker: the
 \* driver arranges the broker loads accordingly), "none" when nobody is elected
@@ -79,13 +92,13 @@ MCISRApply(i) ==
 MCShrink(r, ps, ok) ==
   LET p == Pair(ps) IN
   /\ r # p[1]
-  /\ ~ok => (Faults /\ ~Stale(p[1], p[2]))
+  /\ ~ok => (Faults /\ ~EffectiveOnly /\ ~Stale(p[1], p[2]))
   /\ DoShrinkISR(r, p[1], p[2], ok)
   /\ Step([a |-> "Shrink", r |-> r, ps |-> ps, l |-> p[1], e |-> p[2], ok |-> ok])
 
 MCExpand(r, ps, ok) ==
   LET p == Pair(ps) IN
-  /\ ~ok => (Faults /\ ~Stale(p[1], p[2]))
+  /\ ~ok => (Faults /\ ~EffectiveOnly /\ ~Stale(p[1], p[2]))
   /\ DoExpandISR(r, p[1], p[2], ok)
   /\ Step([a |-> "Expand", r |-> r, ps |-> ps, l |-> p[1], e |-> p[2], ok |-> ok])
 
@@ -127,5 +140,9 @@ StepOK ==
     [] OTHER -> P_Quiet
 StepsOK == [][StepOK]_mcvars
 
-MCView == <<exists, isr, pisr, leader, lepoch, pepoch, fo, armed, good, pend, taint, nOps>>
+\* with the history in the view the state graph is the tree of all step sequences:
+\* used (with current pairs only) to replay EVERY sequence of effective steps up to
+\* a small depth - the real system may remember what the model state has forgotten
+MCPathView == <<hist, exists, isr>>
+MCView == <<ownE, exists, isr, pisr, leader, lepoch, pepoch, fo, armed, good, pend, taint, nOps>>
 =============================================================================
